@@ -126,6 +126,7 @@ type Scenario struct {
 	Post     []string    `json:"post,omitempty"` // reopen ship corrupt crash-probe
 	PipeCap  int         `json:"pipe_cap,omitempty"`
 	Corrupt  []Corruption `json:"corrupt,omitempty"`
+	OtherPack bool       `json:"other_pack,omitempty"` // a further task packs another tree with its own rule file (slug.Pack) while the build runs: both consume the same ignore-rule machinery
 	CloseTask bool       `json:"close_task,omitempty"` // Close is issued by task 0 after its Adds instead of after all tasks
 	Tapes    [][]int     `json:"tapes,omitempty"`     // pinned schedule tapes, one per scheduler in creation order (variants, then ship)
 	HaveTape bool        `json:"have_tape,omitempty"`
